@@ -7,7 +7,9 @@ package model
 //              the caller passes the section offset as the only calldata word.
 // Init code:   PUSH1 0 POP | body | data (init code of nested creates, runtime stub)
 // Memory map:  0x00 calldata word, 0x20 LOG data word, 0x40.. addresses returned by creates,
-//              0x100.. init code / runtime code staging area.
+//              0xc0 output word of a literal call with an output record,
+//              0x100.. init code / runtime code staging area,
+//              0x10000.. input staging area of calls to native contracts.
 
 import (
 	"fmt"
@@ -18,8 +20,10 @@ const (
 	opADD          = 0x01
 	opISZERO       = 0x15
 	opSHR          = 0x1c
+	opADDRESS      = 0x30
 	opCALLDATALOAD = 0x35
 	opCODECOPY     = 0x39
+	opRETURNDATASZ = 0x3d
 	opPOP          = 0x50
 	opMLOAD        = 0x51
 	opMSTORE       = 0x52
@@ -47,8 +51,11 @@ const (
 	c16MemCalldata = 0x00
 	c16MemLog      = 0x20
 	c16MemCreated  = 0x40
+	c16MemOut      = 0xc0
 	c16MemStage    = 0x100
-	C16MaxCreates  = 4 // per frame (slots in the created-address area)
+	c16MemInput    = 0x10000
+	C16MaxInput    = 0x8000 // largest call data of a literal call
+	C16MaxCreates  = 4      // per frame (slots in the created-address area)
 )
 
 type c16fix struct{ pos, label int }
@@ -97,6 +104,8 @@ func (a *c16asm) resolve(base int) ([]byte, error) {
 func C16StubCode(s *C16Stub) []byte {
 	a := &c16asm{}
 	switch s.Kind {
+	case C16StubZeros:
+		return make([]byte, s.Size)
 	case C16StubStore:
 		a.push(8, s.Val)
 		a.push(1, s.Slot)
@@ -266,6 +275,15 @@ func (c *c16compiler) frame(f *C16Frame, isCreate bool) *c16asm {
 				continue
 			}
 			insize := uint64(0)
+			literal := inv.Tgt == C16TgtPlain || inv.Tgt == C16TgtSelf
+			if !literal && (inv.InSize > 0 || len(inv.Input) > 0 || inv.OutRec) {
+				c.fail(fmt.Errorf("call data / output record on a non-literal target"))
+				return a
+			}
+			if inv.InSize > C16MaxInput || len(inv.Input) > C16MaxInput {
+				c.fail(fmt.Errorf("call data too large"))
+				return a
+			}
 			if inv.Tgt == C16TgtNode {
 				insize = 32
 				dest := 0
@@ -276,10 +294,33 @@ func (c *c16compiler) frame(f *C16Frame, isCreate bool) *c16asm {
 				a.push(1, c16MemCalldata)
 				a.op(opMSTORE)
 			}
-			a.push(1, 0)      // retSize
-			a.push(1, 0)      // retOffset
-			a.push(1, insize) // inSize
-			a.push(1, c16MemCalldata)
+			if len(inv.Input) > 0 {
+				l := a.newLabel()
+				// arbitrary bytes: 33 trailing STOPs re-synchronise the JUMPDEST analysis, whatever PUSH the data
+				// may end in, before the next section's JUMPDEST
+				blobs = append(blobs, blob{l, append(append([]byte{}, inv.Input...), make([]byte, 33)...)})
+				a.push(2, uint64(len(inv.Input)))
+				a.pushLabel(l)
+				a.push(3, c16MemInput)
+				a.op(opCODECOPY)
+			}
+			if inv.OutRec {
+				a.push(1, 0)
+				a.push(1, c16MemOut)
+				a.op(opMSTORE)
+				a.push(1, 32)        // retSize
+				a.push(1, c16MemOut) // retOffset
+			} else {
+				a.push(1, 0) // retSize
+				a.push(1, 0) // retOffset
+			}
+			if inv.InSize > 0 {
+				a.push(2, uint64(inv.InSize))
+				a.push(3, c16MemInput)
+			} else {
+				a.push(1, insize) // inSize
+				a.push(1, c16MemCalldata)
+			}
 			if inv.Kind == C16KCall || inv.Kind == C16KCallCode {
 				a.push(8, inv.Value)
 			}
@@ -289,6 +330,8 @@ func (c *c16compiler) frame(f *C16Frame, isCreate bool) *c16asm {
 				a.pushBytes(h[:])
 			case C16TgtPlain:
 				a.pushBytes(inv.Addr[:])
+			case C16TgtSelf:
+				a.op(opADDRESS)
 			case C16TgtCreated:
 				if inv.Ref >= ncreate {
 					c.fail(fmt.Errorf("created-ref before create"))
@@ -311,6 +354,17 @@ func (c *c16compiler) frame(f *C16Frame, isCreate bool) *c16asm {
 			c.gas(a, inv)
 			a.op([]byte{opCALL, opCALLCODE, opDELEGATECALL, opSTATICCALL}[inv.Kind])
 			c.policy(a, inv, false)
+			if inv.OutRec {
+				a.push(1, c16MemOut)
+				a.op(opMLOAD)
+				a.push(1, inv.OutSlot)
+				a.op(opSSTORE)
+				a.op(opRETURNDATASZ)
+				a.push(1, 1)
+				a.op(opADD)
+				a.push(1, inv.OutSlot+1)
+				a.op(opSSTORE)
+			}
 		}
 	}
 	switch f.Term {
@@ -406,7 +460,9 @@ func c16hosted(p *C16Program) [][]*C16Frame {
 		}
 	}
 	for _, tx := range p.Txs {
-		walk(tx.Root, tx.Create)
+		if tx.Root != nil {
+			walk(tx.Root, tx.Create)
+		}
 	}
 	return out
 }
@@ -433,7 +489,7 @@ func C16Compile(p *C16Program) error {
 	c.final = true
 	p.HostCode = make([][]byte, len(p.Hosts))
 	for _, tx := range p.Txs {
-		if tx.Create {
+		if tx.Create && tx.Root != nil {
 			c.initCode(tx.Root)
 		}
 	}
